@@ -126,9 +126,10 @@ def run(tier, seed):
                  "width at which offset of the raw header / extended header / level-0 extended area, as linear forms over the "
                  "path length and data length), compared with the reference tables of the LHA format held by the checker; the "
                  "endian decoders, the OS-9 permission mapping and the DOS date/time bit-fields are proven bit-exact by GF(2) "
-                 "bit-level evaluation; the extended-header registry is compared entry by entry. Decides the field wiring for all "
-                 "headers at once (the suite's sizes stay below 2^24 and it has no 0x52/0x53 headers). Not decided: name "
-                 "normalisation (lower-casing, separators beyond C11's rules), mktime's arithmetic, position of member data.")
+                 "bit-level evaluation; the extended-header registry is compared entry by entry and its dispatcher is evaluated for all 256 type bytes; the "
+                 "all-caps folding of DOS-like names is shown to run only after both strings were scanned clean. Decides the field wiring for all "
+                 "headers at once (the suite's sizes stay below 2^24 and it has no 0x52/0x53 headers). Not decided: separator "
+                 "normalisation values (C11), mktime's arithmetic, position of member data.")
     with Context(tier) as ctx:
         from .. import selfcheck
         selfcheck.run(ctx, rep, ['gf2', 'facts'])
